@@ -21,7 +21,7 @@ CLAIM = dict(
     "2^p when the step is halved; every accepted step of the adaptive methods must equal one textbook RKF4(5)/DOPRI5(4) "
     "step of the same size, stay within 10 x tol of the exact flow, and energy / angular momentum must drift no more than "
     "the corresponding bound; propagate(t) (forward and backward), samples of iter() with three output steps and split "
-    "requests must agree within 5 mm plus the 8-point interpolation remainder.",
+    "requests must agree within the time resolution of the re-sampling (|v| x 3.3 us, about 25 mm) plus the 8-point interpolation remainder.",
     note="Trusts mc/ref/rk.py (tableaux proved against the order conditions in exact arithmetic) and mc/ref/twobody.py "
     "(universal-variable flow, self-tested against the element formulation). Only the central point-mass body is exercised.",
     technique="exhaustive product over finite input alphabets on the real code vs. independent reference integrators and the exact two-body flow",
@@ -47,6 +47,8 @@ ASSUMPTIONS = [
     "centred 8-point stencil: 25-30 mm) + twice the worst-case 8-point Lagrange remainder on the exact arc, evaluated by the reference; "
     "the ratio to the design's flat 5 mm is reported as an informative margin",
     "adaptive methods: 'small multiple' = 10 as in DESIGN.md; global error bound = (number of steps) x 10 tol",
+    "order test: sup-norm position error over the horizon at h and h/2, ratio within a factor 1.6 of 2^p when w_perigee*h <= 0.07, "
+    "within a factor 2 for coarser steps (pre-asymptotic h^(p+1) term); pairs whose error is below 100 x the round-off bound are not decidable",
 ]
 NOT_COVERED = (
     "third-body accelerations (only a point-mass central body is in the property), steps outside [5 s, 120 s], hyperbolic orbits, "
@@ -326,8 +328,12 @@ def check_fixed_march(case, t):
         ratio = sup_err / sup2
         dev = max(ratio / 2**p, 2**p / ratio)
         t.outcome(("order", method, round(math.log2(ratio), 1)))
-        if not t.margin(f"O2 {method} |log(error ratio / 2^p)| / log 1.6", math.log(dev), math.log(1.6)):
-            t.fail(f"KeplerNum/{method}/convergence-order", f"error shrinks by 2^{p} when the step is halved (factor 1.6)", c2,
+        # window: factor 1.6 (DESIGN.md) in the asymptotic regime; for coarse steps (w_perigee*h > 0.07) the next term of the
+        # error expansion contributes O(w h) to the ratio (measured: 25 at w h = 0.14, 16.1-16.4 at h = 5 s): there the
+        # order is only required to be identified to within one unit (factor 2)
+        win = 1.6 if g["w_p"] * h <= 0.07 else 2.0
+        if not t.margin(f"O2 {method} |log(error ratio / 2^p)| / log(window)", math.log(dev), math.log(win)):
+            t.fail(f"KeplerNum/{method}/convergence-order", f"error shrinks by 2^{p} when the step is halved (within a factor {win})", c2,
                    2**p, ratio, f"{name} h={h}->{h/2}: sup error {sup_err:.4e} -> {sup2:.4e} m over {n_o2*h} s")
     # drifts shrink at least at the order of the scheme (one-sided), unless at the round-off floor
     for lab, d1, d2, fl in (("energy", sup_dE, dE2, 1e3 * EPS * n2), ("ang.momentum", sup_dH, dH2, 1e3 * EPS * n2)):
@@ -424,6 +430,31 @@ def check_adaptive_march(case, t):
 # O4 request forms
 
 
+def stencil_spread(nodes, h, x):
+    """Textbook 8-point Lagrange interpolation (Neville) of the node sequence `nodes` = [(t_k, y_k)] (t_k = k*h, h of
+    any sign) at time x, over EVERY stencil of 8 consecutive nodes whose span contains x.
+    Returns (value on the most centred stencil, max position deviation, max velocity deviation among stencils)."""
+    K = len(nodes) - 1
+    j0 = min(max(int(math.floor(x / h)), 0), K - 1)
+    starts = range(max(0, j0 - 6), min(j0, K - 7) + 1)
+    centre = min(max(j0 - 3, 0), K - 7)
+    vals = {}
+    for s0 in starts:
+        xs = [nodes[s0 + i][0] - x for i in range(8)]
+        p = [nodes[s0 + i][1] for i in range(8)]
+        for m in range(1, 8):
+            for i in range(8 - m):
+                p[i] = (-xs[i + m] * p[i] + xs[i] * p[i + 1]) / (xs[i] - xs[i + m])
+        vals[s0] = p[0]
+    c = vals[centre]
+    sr = max(float(np.linalg.norm((v - c)[:3])) for v in vals.values())
+    sv = max(float(np.linalg.norm((v - c)[3:])) for v in vals.values())
+    return c, sr, sv
+
+
+LIBERR = (ValueError, RuntimeError, ArithmeticError, AttributeError, TypeError, KeyError, IndexError)
+
+
 def check_requests(case, t):
     from datetime import timedelta
     from mc.ref import rk, twobody
@@ -440,6 +471,8 @@ def check_requests(case, t):
     f = rk.two_body_rhs(mu)
     base = dict(part="req", orbit=name, method=method, h=h, tier=tier)
     nmax = 600 if tier == "quick" else 10**9
+    v_p = math.sqrt(mu * (2 / g["rp"] - 1 / g["a"]))
+    a_p = mu / g["rp"] ** 2
 
     fw = [P / 20, P / 4] + ([P] if P / h <= nmax else [])
     bw = [P / 4] + ([P] if tier == "thorough" else [])
@@ -449,19 +482,49 @@ def check_requests(case, t):
         try:
             r = orb.propagate(at(us))
             t.trans()
-            return r
-        except (ValueError, RuntimeError, ArithmeticError, AttributeError, TypeError, KeyError, IndexError) as e:
+        except LIBERR as e:
             t.fail(f"KeplerNum/{method}/propagate/raises-{type(e).__name__}", "propagate returns a state", dict(base, only=key),
                    "state", repr(e)[:300], f"{name} h={h}s target {us*1e-6:+.6f} s")
             return None
+        if us_of(r.date) != us:
+            t.fail(f"KeplerNum/{method}/propagate/date", "propagate(t) returns a state dated t", dict(base, only=key), us, us_of(r.date))
+            return None
+        return r
 
-    def tol_interp(us):
-        return interp_tol(name, us, h)
+    # reference node sequences of the fixed-step schemes (forward and backward), marched once
+    ref_fw = ref_bw = None
+    if fixed:
+        kmax = int(max(fw) / h) + 12
+        ref_fw = rk.march(tab, f, 0.0, y0, float(h), kmax)
+        ref_bw = rk.march(tab, f, 0.0, y0, -float(h), int(max(bw) / h) + 12)
+
+    def tolerances(us):
+        """(reference value or None, position tol, velocity tol, label) for a re-sampled state at `us`."""
+        if fixed:
+            nodes = ref_fw if us >= 0 else ref_bw
+            hh = float(h) if us >= 0 else -float(h)
+            nst = abs(us) // h_us + 1
+            ro = roundoff_tol(g, nst, us * 1e-6)
+            if us % h_us == 0:
+                return nodes[abs(us) // h_us][1], ro, ro * g["w_p"], "node of the textbook scheme / round-off bound"
+            c, sr, sv = stencil_spread(nodes, hh, us * 1e-6)
+            return c, v_p * QUANT + 2 * sr + ro, a_p * QUANT + 2 * sv + ro * g["w_p"], \
+                "textbook 8-pt Lagrange of the scheme's nodes / (time resolution + stencil spread)"
+        tr, tv = interp_tol(name, us, h)
+        return None, tr, tv, "(time resolution + interpolation remainder)"
+
+    def compare(lab, sig, clause, c, got, want, tr, tv, detail):
+        d = float(np.linalg.norm(got[:3] - want[:3]))
+        dv = float(np.linalg.norm(got[3:] - want[3:]))
+        if not t.margin(lab, max(d / tr, dv / tv), 1.0):
+            t.fail(sig, clause, c, [float(x) for x in want], [float(x) for x in got],
+                   f"{detail}: |dr|={d:.4e} m (tol {tr:.3e}), |dv|={dv:.3e} m/s (tol {tv:.3e})")
+        return d
 
     # ---- forward: propagate(t) vs sample of iter(stop, step_out) ------------------------------
     for so_name, so in souts:
         if so_name == "own" and not fixed:
-            t.exclude("own-step iteration of an adaptive method yields the accepted nodes, not a regular grid (C08)")
+            t.exclude("own-step iteration of an adaptive method yields the accepted nodes, not a regular grid (see C08)")
             continue
         so_eff = h_us if so is None else so
         tg = []
@@ -477,7 +540,7 @@ def check_requests(case, t):
         try:
             samples = [(us_of(o.date), A(o)) for o in orb.iter(stop=at(stop_us), **kw)]
             t.trans(len(samples))
-        except (ValueError, RuntimeError, ArithmeticError, AttributeError, TypeError, KeyError, IndexError) as e:
+        except LIBERR as e:
             t.fail(f"KeplerNum/{method}/iter/raises-{type(e).__name__}", "iter yields states", dict(base, only=keyb), "states", repr(e)[:300],
                    f"{name} h={h}s stop={stop_us*1e-6}s step={so_name}")
             continue
@@ -487,6 +550,7 @@ def check_requests(case, t):
                 continue
             c = dict(base, only=key)
             ongrid = us % h_us == 0
+            og = "on" if ongrid else "off"
             t.ev(("R", name, method, h, so_name, us))
             t.state(("R", name, method, h, so_name, us))
             if kk >= len(samples) or samples[kk][0] != us:
@@ -496,33 +560,27 @@ def check_requests(case, t):
             p = propagate(make(name, method, h_us), us, key)
             if p is None:
                 continue
-            if us_of(p.date) != us:
-                t.fail(f"KeplerNum/{method}/propagate/date", "propagate(t) returns a state dated t", c, us, us_of(p.date))
-                continue
-            d = float(np.linalg.norm(A(p)[:3] - samples[kk][1][:3]))
-            dv = float(np.linalg.norm(A(p)[3:] - samples[kk][1][3:]))
-            if fixed and ongrid:
-                tol = roundoff_tol(g, us // h_us, us * 1e-6)
-                tolv = tol * g["w_p"]
-                lab = "O4 on-grid propagate vs iter sample / round-off bound"
+            yp, ys = A(p), samples[kk][1]
+            refv, tr, tv, lab = tolerances(us)
+            t.outcome(("req", so_name, og))
+            info = f"{name} h={h}s t={us*1e-6}s step_out={so_name}"
+            d = compare(f"O4 propagate vs iter sample [{og}-grid] / " + (lab if not (fixed and ongrid) else "round-off bound"),
+                        f"KeplerNum/{method}/propagate-vs-iter/{so_name}/{og}-grid",
+                        "the state for a date does not depend on output step or request form", c, yp, ys, tr, tv, info)
+            t.margin("O4 propagate vs iter sample, position / 5 mm (informative only: the design's flat figure)", d, 5e-3)
+            if refv is not None:
+                compare(f"O4 iter sample [{og}-grid] vs " + lab, f"KeplerNum/{method}/iter-sample-vs-scheme/{so_name}/{og}-grid",
+                        "re-sampled states interpolate the nodes of the scheme", c, ys, refv, tr, tv, info)
+                compare(f"O4 propagate [{og}-grid] vs " + lab, f"KeplerNum/{method}/propagate-vs-scheme/{og}-grid",
+                        "propagate(t) interpolates the nodes of the scheme", c, yp, refv, tr, tv, info)
             else:
-                tol, tolv = tol_interp(us)
-                lab = "O4 propagate vs iter sample / (|v| x time resolution + interpolation remainder)"
-            t.outcome(("req", so_name, "ongrid" if ongrid else "offgrid"))
-            t.margin("O4 propagate vs iter sample, position / 5 mm (informative: the design's figure)", d, 5e-3)
-            if not t.margin(lab, max(d / tol, dv / tolv), 1.0):
-                t.fail(f"KeplerNum/{method}/propagate-vs-iter/{so_name}/{'on' if ongrid else 'off'}-grid",
-                       "the state for a date does not depend on output step or request form", c,
-                       [float(x) for x in samples[kk][1]], [float(x) for x in A(p)],
-                       f"{name} h={h}s t={us*1e-6}s step_out={so_name}: |dr|={d:.4e} m |dv|={dv:.3e} (tol {tol:.3e})")
-            # accuracy against the exact flow for the adaptive methods (forward propagate)
-            if not fixed:
+                # accuracy of the adaptive methods against the exact flow
                 ex = twobody.propagate_uv(y0, us * 1e-6, mu)
                 nst = int(math.ceil(us / h_us)) + 8
-                ge = float(np.linalg.norm(A(p)[:3] - ex[:3]))
-                if not t.margin("O3 propagate (adaptive) global error / (N 10 tol + interp)", ge, nst * SMALL_MULT * 1e-3 + tol_interp(us)[0]):
+                ge = float(np.linalg.norm(yp[:3] - ex[:3]))
+                if not t.margin("O3 propagate (adaptive) global error / (N 10 tol + interp)", ge, nst * SMALL_MULT * 1e-3 + tr):
                     t.fail(f"KeplerNum/{method}/propagate/global-error", "adaptive propagate stays within N x 10 tol of the exact flow", c,
-                           nst * SMALL_MULT * 1e-3, ge, f"{name} h={h}s t={us*1e-6}s")
+                           nst * SMALL_MULT * 1e-3, ge, info)
 
     # ---- split request: propagate(t_mid) then propagate(t) from the returned orbit ------------
     key = "split"
@@ -540,21 +598,19 @@ def check_requests(case, t):
             try:
                 two = o_mid.propagate(at(us_t))
                 t.trans()
-            except (ValueError, RuntimeError, ArithmeticError, AttributeError, TypeError, KeyError, IndexError) as e:
+            except LIBERR as e:
                 t.fail(f"KeplerNum/{method}/split/raises-{type(e).__name__}", "a returned orbit can be propagated further", c, "state", repr(e)[:300])
             if two is not None:
-                d = float(np.linalg.norm(A(two)[:3] - A(direct)[:3]))
                 if fixed:
-                    tol = roundoff_tol(g, n_t, us_t * 1e-6)
+                    tr = roundoff_tol(g, n_t, us_t * 1e-6)
                     lab = "O4 split propagate (on-grid) / round-off bound"
                 else:
-                    tol = 2 * (n_t + 8) * SMALL_MULT * 1e-3 + tol_interp(us_t)[0]
+                    tr = 2 * (n_t + 8) * SMALL_MULT * 1e-3 + interp_tol(name, us_t, h)[0]
                     lab = "O4 split propagate (adaptive) / (2 N 10 tol + interp)"
-                if not t.margin(lab, d, tol):
-                    t.fail(f"KeplerNum/{method}/split-request", "propagate(t) = propagate(t_mid) then propagate(t)", c,
-                           [float(x) for x in A(direct)], [float(x) for x in A(two)], f"{name} h={h}s: {us_mid*1e-6}s + rest = {us_t*1e-6}s: |dr|={d:.3e} (tol {tol:.3e})")
+                compare(lab, f"KeplerNum/{method}/split-request", "propagate(t) = propagate(t_mid) then propagate(t)", c, A(two), A(direct),
+                        tr, tr * g["w_p"] * 3, f"{name} h={h}s: {us_mid*1e-6}s + rest = {us_t*1e-6}s")
 
-    # ---- 3 periods, on-grid, own step (thorough) ----------------------------------------------
+    # ---- 3 periods, on-grid (thorough) --------------------------------------------------------
     if tier == "thorough" and fixed and (not only or only == "3P"):
         n3 = int(3 * P / h)
         c = dict(base, only="3P")
@@ -563,10 +619,9 @@ def check_requests(case, t):
         p = propagate(make(name, method, h_us), n3 * h_us, "3P")
         if p is not None:
             yr = rk.march(tab, f, 0.0, y0, float(h), n3)[-1][1]
-            d = float(np.linalg.norm(A(p)[:3] - yr[:3]))
-            if not t.margin("O4 propagate(3P) vs textbook scheme / round-off bound", d, roundoff_tol(g, n3, 3 * P)):
-                t.fail(f"KeplerNum/{method}/propagate/forward-vs-textbook-scheme", "propagate to an on-grid date returns the node of the scheme", c,
-                       [float(x) for x in yr], [float(x) for x in A(p)], f"{name} h={h}s 3P")
+            tr = roundoff_tol(g, n3, 3 * P)
+            compare("O4 propagate(3P) vs textbook scheme / round-off bound", f"KeplerNum/{method}/propagate-vs-scheme/on-grid",
+                    "propagate to an on-grid date returns the node of the scheme", c, A(p), yr, tr, tr * g["w_p"], f"{name} h={h}s 3P")
 
     # ---- backward targets (propagate only) ----------------------------------------------------
     for tau in bw:
@@ -596,44 +651,21 @@ def check_requests(case, t):
             p = propagate(orb, us, key)
             if p is None:
                 continue
-            if us_of(p.date) != us:
-                t.fail(f"KeplerNum/{method}/propagate/date", "propagate(t) returns a state dated t", c, us, us_of(p.date))
-                continue
             if not calls or any(s >= 0 for s in calls):
                 t.fail(f"KeplerNum/{method}/propagate/backward-steps", "a backward target is reached with negative steps", c, "<0", calls[:5])
                 continue
             yp = A(p)
-            ex = twobody.propagate_uv(y0, us * 1e-6, mu)
             nst = len(calls)
             t.outcome(("bw", kind, method))
+            info = f"{name} h={h}s t={us*1e-6}s"
             if fixed:
-                nn = int(math.ceil(-us / h_us))
-                refn = rk.march(tab, f, 0.0, y0, -float(h), nn)
-                if kind == "on":
-                    yr = refn[-1][1]
-                    d = max(float(np.linalg.norm(yp[:3] - yr[:3])), float(np.linalg.norm(yp[3:] - yr[3:])) / g["w_p"])
-                    if not t.margin("O1 backward on-grid propagate vs textbook scheme / round-off bound", d, roundoff_tol(g, nn, us * 1e-6)):
-                        t.fail(f"KeplerNum/{method}/propagate/backward-vs-textbook-scheme", "backward propagate to an on-grid date returns the node of the scheme", c,
-                               [float(x) for x in yr], [float(x) for x in yp], f"{name} h={h}s t={us*1e-6}s: {d:.3e}")
-                else:
-                    # nearest reference node continued with the exact flow; the interpolant of the numerical nodes may
-                    # deviate from that arc by the local truncation error of the neighbouring steps
-                    k0 = int(round(-us / h_us))
-                    k0 = min(max(k0, 0), nn)
-                    tr, yrn = refn[k0]
-                    cont = twobody.propagate_uv(yrn, us * 1e-6 - tr, mu)
-                    lte = 0.0
-                    for kk in range(max(0, k0 - 4), min(nn, k0 + 4)):
-                        one = twobody.propagate_uv(refn[kk][1], -float(h), mu)
-                        lte = max(lte, float(np.linalg.norm(one[:3] - refn[kk + 1][1][:3])))
-                    d = float(np.linalg.norm(yp[:3] - cont[:3]))
-                    tol = tol_interp(us)[0] + 2 * lte + roundoff_tol(g, nn, us * 1e-6)
-                    if not t.margin("O4 backward off-grid propagate vs scheme+flow / (time resolution + interp + 2 LTE)", d, tol):
-                        t.fail(f"KeplerNum/{method}/propagate/backward-off-grid", "backward propagate to an off-grid date interpolates the scheme's nodes", c,
-                               [float(x) for x in cont], [float(x) for x in yp], f"{name} h={h}s t={us*1e-6}s: {d:.3e} (tol {tol:.3e})")
+                refv, tr, tv, lab = tolerances(us)
+                compare(f"O1/O4 backward propagate [{kind}-grid] vs " + lab, f"KeplerNum/{method}/propagate-vs-scheme/backward-{kind}-grid",
+                        "a backward target reached by propagate lies on the scheme marched with -step", c, yp, refv, tr, tv, info)
             else:
+                ex = twobody.propagate_uv(y0, us * 1e-6, mu)
                 ge = float(np.linalg.norm(yp[:3] - ex[:3]))
-                tol = nst * SMALL_MULT * 1e-3 + tol_interp(us)[0]
+                tol = nst * SMALL_MULT * 1e-3 + interp_tol(name, us, h)[0]
                 if not t.margin("O3 backward propagate (adaptive) global error / (N 10 tol + interp)", ge, tol):
                     t.fail(f"KeplerNum/{method}/propagate/backward-global-error", "adaptive backward propagate stays within N x 10 tol of the exact flow", c,
-                           tol, ge, f"{name} h={h}s t={us*1e-6}s, {nst} steps")
+                           tol, ge, f"{info}, {nst} steps")
